@@ -187,6 +187,11 @@ c = contract('Model.memoize', file=F_MODEL, props=['C05', 'C08', 'C01'], params=
 c.locals = dict(mymemo=TDict(REAL, REAL))
 
 
+contract('Model.previous_time', file=F_MODEL, props=['C05', 'C01'], params=dict(self=SDM, t=REAL), returns=REAL,
+         requires=lambda C: C.self.dt != 0,
+         # the grid label of t - dt: the same key function memoize uses, so an equation read "one step back" sees a canonical time
+         ensures=lambda C: C.result == mkey(C.self, C.t - C.self.dt))
+
 contract('Model.equation', file=F_MODEL, props=['C05', 'C09'], params=dict(self=SDM, equation=STR, t=REAL), returns=REAL,
          requires=lambda C: C.self.dt != 0,
          ensures=lambda C: memoize_post(Ctx(C.ex, C.st, C.old_st, dict(C.params, arg=C.params['t']), result=C._result, side=C.side)),
